@@ -59,6 +59,14 @@ Theorem mgmt_keeps_invariants : forall rib_to_fib face_cleanup allow ds_fits st 
 Proof. exact run_keeps_inv. Qed.
 Print Assumptions mgmt_keeps_invariants.
 
+(* ---- the three tables keep unique keys (the precondition of the removal-effect theorems below), provided the two external
+   functions keep them ---- *)
+Theorem mgmt_keeps_unique_keys : forall rib_to_fib face_cleanup allow ds_fits st vs c st' vs' r,
+  ext_wf rib_to_fib face_cleanup -> tables_wf st ->
+  run rib_to_fib face_cleanup allow ds_fits st vs c = Ok st' vs' r -> tables_wf st'.
+Proof. exact (fun rtf fc al df st vs c st' vs' r X W H => run_keeps_tables_wf rtf fc al df st vs c X W st' vs' r H). Qed.
+Print Assumptions mgmt_keeps_unique_keys.
+
 (* ---- datasets_exact: every status dataset (single segment) lists exactly the table it reports ---- *)
 Theorem datasets_exact : forall rib_to_fib face_cleanup allow ds_fits st vs c st' vs' r,
   run rib_to_fib face_cleanup allow ds_fits st vs c = Ok st' vs' r -> spec_dataset c r st' = true.
